@@ -19,6 +19,10 @@ class CustomTwoArgs(Exception):
     pass
 
 
+class CustomTypeError(TypeError):
+    """A user exception deriving from a builtin that the library itself raises and catches in places (seeded C06d-3)."""
+
+
 class StepBudgetExceeded(BaseException):
     """Raised inside a run when the deterministic step budget is exhausted (violation class HANG)."""
 
@@ -35,6 +39,8 @@ def _exc_factories():
         ("KeyError(5)", lambda: KeyError(5)),
         ("RuntimeError(2 lines)", lambda: RuntimeError("boom-l1\nboom-l2")),
         ("ValueError(None)", lambda: ValueError(None)),
+        ("TypeError(msg)", lambda: TypeError("boom-te")),
+        ("CustomTypeError(TypeError)", lambda: CustomTypeError("boom-cte")),
     ]
 
 
